@@ -3359,6 +3359,8 @@ class SetInstance(object):
         elif setdata.is_fully_loaded: return not setdata
         elif setdata: return False
         elif setdata.count is not None: return not setdata.count
+        cache = obj._session_cache_
+        if cache is None or not cache.is_alive: throw_db_session_is_over('read value of', obj, attr)
         entity = attr.entity
         reverse = attr.reverse
         rentity = reverse.entity
